@@ -52,6 +52,20 @@ def _enum_text(v, mod, names=ENUM_NAMES):
     return str(v).rjust(vl) + ' ' + name
 
 
+_CENTRED = []
+
+
+def _centred_type():
+    if not _CENTRED:
+        from ak import ppobj
+
+        class Centred(ppobj.FieldType):
+            def make_desired_cell_ch_chunks(self, value, fmt_modifier, field_palette):
+                return [field_palette.text(str(value))], ppobj.ALIGN_CENTER
+        _CENTRED.append(Centred)
+    return _CENTRED[0]()
+
+
 def build(case):
     """abstract table -> (kwargs for PPTable, judge case without lines)"""
     cols, recs, opts = case['cols'], case['recs'], case['opts']
@@ -100,6 +114,10 @@ def build(case):
             ftypes[fields[c]] = PPEnumFieldType({0: nm[0], 1: (nm[1], 'name_good'), 10: (nm[10], 'name_warn')})
             if '/' in col['kind']:
                 s += '/' + col['kind'].split('/')[1]
+        elif not col['brk'] and (c + n + len(recs)) % 3 == 2:
+            # a user-defined field type that centres its values (the third alignment fit_to_width supports; nothing
+            # in the library itself uses it) - the acceptor allows the padding on either side
+            ftypes[fields[c]] = _centred_type()
         if col['brk']:
             s += '!'
         s += ':%d' % col['min'] if col['min'] == col['max'] else ':%d-%d' % (col['min'], col['max'])
